@@ -3011,7 +3011,13 @@ def transform_pseudo_instructions(items, constants, labels):
             env = ChainMap(constants, labels)
             value = imm.eval(position, env, item.line)
             value = c_int32(value).value  # signed imm
-            if value >= (-2**11) and value <= (2**11 - 1):
+            # labels and positions are still moving: a value that depends on them may leave the
+            # 12-bit range after this decision, so only a static value takes the short form
+            try:
+                static = imm.eval(position, constants, item.line) == imm.eval(position + 2, constants, item.line)
+            except AssemblerError:
+                static = False
+            if static and value >= (-2**11) and value <= (2**11 - 1):
                 inst = ITypeInstruction(item.line, 'addi', rd=rd, rs1='x0', imm=Lo(imm))
                 # shrink all subsequent labels by 4
                 new_labels = {k: v - 4 for k, v in labels.items() if v > position}
